@@ -1,6 +1,6 @@
 (** Non-vacuity for C12: readers satisfying the hypotheses, and concrete runs of the model. *)
 From Coq Require Import NArith List Lia.
-From FF Require Import Lib.Word Gen.Consts_device_acpi_aml Aml.Stream Aml.Lex Aml.LexProofs Aml.Tree Aml.TreeSpec Aml.Parser Aml.ParserProofs Aml.ParserProofsTop Aml.ParserTotalBase Aml.ParserTotalFirst.
+From FF Require Import Lib.Word Gen.Consts_device_acpi_aml Aml.Stream Aml.Lex Aml.LexProofs Aml.Tree Aml.TreeSpec Aml.Parser Aml.ParserProofs Aml.ParserProofsTop Aml.ParserTotalBase Aml.ParserTotalFirst Aml.ParserTotalConn Aml.ParserTotalTop.
 Import ListNotations.
 Local Open Scope N_scope.
 
@@ -89,7 +89,7 @@ Proof.
   assert (Hcap : N.of_nat (length (t_pool tree)) + 4 * N.of_nat (length ex_image) + 4 <= InvalidIndex).
   { assert (E : N.of_nat (length ex_image) = 82) by reflexivity. rewrite E.
     assert (EI : InvalidIndex = 0xffffffff) by reflexivity. rewrite EI. lia. }
-  destruct (init_FI tree g [] 1 ex_image HR Hi H0 Him Hcap) as ([F1 F2 (F3 & F4 & F5) F6 F7] & Hroom).
+  destruct (init_FI tree g [] 1 ex_image HR Hi H0 Him Hcap) as ([F1 F2 (F3 & F4 & F5) F6 F7] & Hroom & _).
   cbv zeta. repeat (split; [assumption|]). split; [discriminate|exact Hroom].
 Qed.
 
@@ -104,3 +104,33 @@ Example C12_first_pass_runs :
   | _ => False
   end.
 Proof. vm_compute. reflexivity. Qed.
+
+(** ---- first pass + connectNamedObjArgs ---- *)
+Example C12_passes12_nonvacuous :
+  exists (tree : ObjectTree value) (g : ghost),
+    R tree g /\
+    (forall i o, TreeSpec.get tree i = Some o -> o_opcode o <> opFreed -> opInfo (o_infoIndex o) <> None) /\
+    glive g 0 /\ pool_ok [] tree /\
+    Forall (fun b => b < 256) ex_image /\ N.of_nat (length ex_image) + 0x10000400 <= two32 /\
+    N.of_nat (length (t_pool tree)) + 4 * N.of_nat (length ex_image) + 4 <= InvalidIndex.
+Proof.
+  destruct passes12_hyps_example as (tree & g & HR & Hi & H0 & Hp & Hl). exists tree, g.
+  split; [exact HR|]. split; [exact Hi|]. split; [exact H0|]. split; [exact Hp|].
+  split; [repeat constructor; vm_compute; reflexivity|]. split; [vm_compute; discriminate|].
+  assert (E : N.of_nat (length ex_image) = 82) by reflexivity. rewrite E.
+  assert (EI : InvalidIndex = 0xffffffff) by reflexivity. rewrite EI. lia.
+Qed.
+
+(** concrete run of both passes over the default scopes: connectNamedObjArgs returns parseResultOk and has given the
+    operation region its name (0x30474552 = "REG0" little-endian is not checked here, only the outcome) *)
+Example C12_passes12_runs :
+  match CreateDefaultScopes (@NewObjectTree value) 0 with
+  | Ok t0 => match (scopeEnter 0 ;;;
+                    mlet r1 <~ parseObjectList 400 ;;
+                    if pres_eqb r1 RFailed then ret RFailed else connectNamedObjArgs 400 0) (init_state t0 [] 1 ex_image) with
+             | Ok (ROk, _) => True
+             | _ => False
+             end
+  | _ => False
+  end.
+Proof. vm_compute. exact I. Qed.
